@@ -27,8 +27,8 @@ def plan(ctx):
                                   bounds="name bound or unbound (symbolic)", desc="unbound name / unsupported operator => ParserError"))
     from sqv.harness import txt
     for i, prog in enumerate(txt.PROGRAMS):
-        obs.append(Obligation(f"txt.only_parser_errors.p{i}", "xh", "txt", "error_line", param={"program": i, "class_only": True}, timeout=T * 4,
-                              bounds="one of 12 concrete programs; stray text from 12 samples (brackets, illegal characters, reserved word, unterminated quote, NUL) inserted at, "
+        obs.append(Obligation(f"txt.only_parser_errors.p{i}", "xh", "txt", "error_line", param={"program": i, "class_only": True}, timeout=T * 6,
+                              bounds="one of 13 concrete programs; stray text from 12 samples (brackets, illegal characters, reserved word, unterminated quote, NUL) inserted at, "
                                      "or the text truncated at, every token boundary, under LF / CRLF / ; variants (finite domain enumerated through the solver; real lexer+parser)",
                               desc=f"program {i} damaged at every token boundary: parse returns or raises ParserError, nothing else"))
     obs += lrc_obligations(ctx, ["consistency"], prefix="lrc.")
